@@ -28,7 +28,9 @@ package main
 
 import (
 	"bytes"
+	"crypto/sha256"
 	_ "embed"
+	"encoding/hex"
 	"fmt"
 	"go/ast"
 	"go/format"
@@ -48,8 +50,116 @@ import (
 //go:embed baseline_funcs.txt
 var baselineFuncsTxt string
 
+//go:embed baseline_files.txt
+var baselineFilesTxt string
+
+// scanDirs, when non-nil, restricts the normaliser to the directories whose
+// source files differ from the confirmed tree (by content hash).
+var scanDirs map[string]bool
+
+func walkSources(root string, f func(path, rel string)) {
+	filepath.Walk(root, func(path string, fi os.FileInfo, err error) error {
+		if err != nil {
+			return nil
+		}
+		name := fi.Name()
+		if fi.IsDir() {
+			if path != root && (strings.HasPrefix(name, ".") || strings.HasPrefix(name, "_") || name == "testdata" || name == "vendor") {
+				return filepath.SkipDir
+			}
+			return nil
+		}
+		if !strings.HasSuffix(name, ".go") || strings.HasSuffix(name, "_test.go") {
+			return nil
+		}
+		rel, _ := filepath.Rel(root, filepath.Dir(path))
+		f(path, filepath.ToSlash(rel))
+		return nil
+	})
+}
+
+func fileHash(path string) string {
+	b, err := os.ReadFile(path)
+	if err != nil {
+		return ""
+	}
+	h := sha256.Sum256(b)
+	return hex.EncodeToString(h[:8])
+}
+
+func writeBaselineFiles(root string) string {
+	var lines []string
+	walkSources(root, func(path, rel string) {
+		lines = append(lines, rel+"/"+filepath.Base(path)+"\t"+fileHash(path))
+	})
+	sort.Strings(lines)
+	return "# content hashes of the source files of the confirmed tree (ctverif baseline)\n" + strings.Join(lines, "\n") + "\n"
+}
+
+// changedDirs lists the directories with a source file that is new, gone or different.
+func changedDirs(root string) map[string]bool {
+	base := map[string]string{}
+	for _, l := range strings.Split(baselineFilesTxt, "\n") {
+		if l == "" || strings.HasPrefix(l, "#") {
+			continue
+		}
+		p, h, _ := strings.Cut(l, "\t")
+		base[p] = h
+	}
+	out := map[string]bool{}
+	seen := map[string]bool{}
+	walkSources(root, func(path, rel string) {
+		k := rel + "/" + filepath.Base(path)
+		seen[k] = true
+		if base[k] != fileHash(path) {
+			out[rel] = true
+		}
+	})
+	for k := range base {
+		if !seen[k] {
+			out[filepath.ToSlash(filepath.Dir(k))] = true
+		}
+	}
+	return out
+}
+
 // baselineSigs: funcKey → signature text (sigText) of the confirmed tree.
 var baselineSigs = map[string]string{}
+
+// baselinePrints: funcKey → fingerprint of the body (bodyPrint) of the confirmed tree.
+var baselinePrints = map[string]string{}
+
+// bodyPrint is a cheap fingerprint of a function body: the sorted set of the
+// names it calls and of its string literals.  It only breaks ties between
+// renamed functions that share receiver and signature.
+func bodyPrint(fd *ast.FuncDecl) string {
+	if fd.Body == nil {
+		return ""
+	}
+	set := map[string]bool{}
+	ast.Inspect(fd.Body, func(n ast.Node) bool {
+		switch x := n.(type) {
+		case *ast.CallExpr:
+			switch f := x.Fun.(type) {
+			case *ast.Ident:
+				set[f.Name] = true
+			case *ast.SelectorExpr:
+				set["."+f.Sel.Name] = true
+			}
+		case *ast.BasicLit:
+			if x.Kind == token.STRING && len(x.Value) < 40 {
+				set[x.Value] = true
+			}
+		}
+		return true
+	})
+	var ks []string
+	for k := range set {
+		ks = append(ks, strings.ReplaceAll(k, "\t", " "))
+	}
+	sort.Strings(ks)
+	return strings.Join(ks, ",")
+}
 
 // baselineSpecs: funcKey → "recvName recvType|name type;name type;…" (paramSpec) of the confirmed tree.
 var baselineSpecs = map[string]string{}
@@ -88,10 +198,12 @@ var baselineFuncs = func() map[string]bool {
 	for _, l := range strings.Split(baselineFuncsTxt, "\n") {
 		if l = strings.TrimSpace(l); l != "" && !strings.HasPrefix(l, "#") {
 			k, rest, _ := strings.Cut(l, "\t")
-			sig, spec, _ := strings.Cut(rest, "\t")
+			sig, rest2, _ := strings.Cut(rest, "\t")
+			spec, fp, _ := strings.Cut(rest2, "\t")
 			m[k] = true
 			baselineSigs[k] = sig
 			baselineSpecs[k] = spec
+			baselinePrints[k] = fp
 		}
 	}
 	return m
@@ -193,7 +305,7 @@ func scanFuncs(root string, f func(relDir, file string, fd *ast.FuncDecl)) error
 func writeBaseline(root string) string {
 	var keys []string
 	scanFuncs(root, func(rel, _ string, fd *ast.FuncDecl) {
-		keys = append(keys, funcKey(rel, fd)+"\t"+sigText(fd)+"\t"+paramSpec(fd))
+		keys = append(keys, funcKey(rel, fd)+"\t"+sigText(fd)+"\t"+paramSpec(fd)+"\t"+bodyPrint(fd))
 	})
 	sort.Strings(keys)
 	return "# functions of the tree the rule tables were confirmed against (ctverif baseline); one per line\n" + strings.Join(keys, "\n") + "\n"
@@ -216,10 +328,17 @@ func buildInlineOverlay(root string, env []string) (map[string][]byte, *InlineNo
 	if os.Getenv("CTVERIF_NOINLINE") != "" {
 		return nil, nil
 	}
+	scanDirs = nil
+	if os.Getenv("CTVERIF_INLINE_ALL") == "" {
+		scanDirs = changedDirs(root)
+		if len(scanDirs) == 0 {
+			return nil, nil // every source file is the confirmed one
+		}
+	}
 	note := &InlineNote{}
 	overlay := map[string][]byte{}
 	inlineSeq, modelSeq = 0, 0
-	renameBack(root, env, overlay, note)
+	renamesBack(root, env, overlay, note)
 	signatureBack(root, env, overlay, note)
 	modelLibrary(root, env, overlay, note)
 	for round := 0; round < 3; round++ {
@@ -288,127 +407,6 @@ func buildInlineOverlay(root string, env []string) (map[string][]byte, *InlineNo
 		return nil, note
 	}
 	return overlay, note
-}
-
-// renameBack undoes renames of unexported functions: when, in one directory, a
-// function of the confirmed list is gone and an unknown unexported function
-// with the same receiver type and the same signature has appeared — and this
-// pairing is unique in both directions — the new name is changed back to the
-// confirmed one throughout the package (overlay only).  The rules then find
-// their anchor; a body that is not the old function's makes them fail as usual.
-func renameBack(root string, env []string, overlay map[string][]byte, note *InlineNote) {
-	type fnInfo struct{ key, recv, name, sig string }
-	present := map[string]bool{}
-	byDir := map[string][]fnInfo{}
-	scanFuncsOverlay(root, overlay, func(rel, file string, fd *ast.FuncDecl) {
-		k := funcKey(rel, fd)
-		present[k] = true
-		if !baselineFuncs[k] && !ast.IsExported(fd.Name.Name) && fd.Body != nil {
-			recv := strings.TrimSuffix(strings.SplitN(k, ":", 2)[1], "."+fd.Name.Name)
-			byDir[rel] = append(byDir[rel], fnInfo{k, recv, fd.Name.Name, sigText(fd)})
-		}
-	})
-	if len(byDir) == 0 {
-		return
-	}
-	missing := map[string][]fnInfo{}
-	for k := range baselineFuncs {
-		if present[k] {
-			continue
-		}
-		dir, rest, _ := strings.Cut(k, ":")
-		i := strings.LastIndex(rest, ".")
-		if i < 0 || ast.IsExported(rest[i+1:]) {
-			continue
-		}
-		missing[dir] = append(missing[dir], fnInfo{k, rest[:i], rest[i+1:], baselineSigs[k]})
-	}
-	type pair struct{ from, to fnInfo }
-	pairs := map[string][]pair{}
-	for dir, news := range byDir {
-		for _, n := range news {
-			var cands []fnInfo
-			for _, m := range missing[dir] {
-				if m.recv == n.recv && m.sig == n.sig && m.sig != "" {
-					cands = append(cands, m)
-				}
-			}
-			if len(cands) != 1 {
-				continue
-			}
-			back := 0
-			for _, n2 := range news {
-				if n2.recv == cands[0].recv && n2.sig == cands[0].sig {
-					back++
-				}
-			}
-			if back == 1 {
-				pairs[dir] = append(pairs[dir], pair{n, cands[0]})
-			}
-		}
-	}
-	if len(pairs) == 0 {
-		return
-	}
-	var pats []string
-	for d := range pairs {
-		pats = append(pats, "./"+d)
-	}
-	sort.Strings(pats)
-	cfg := &packages.Config{
-		Mode: packages.NeedName | packages.NeedFiles | packages.NeedCompiledGoFiles | packages.NeedImports |
-			packages.NeedTypes | packages.NeedSyntax | packages.NeedTypesInfo | packages.NeedTypesSizes,
-		Dir: root, Env: env, Tests: false, Overlay: overlay,
-	}
-	pkgs, err := packages.Load(cfg, pats...)
-	if err != nil {
-		return
-	}
-	for _, pk := range pkgs {
-		if len(pk.Errors) > 0 || pk.TypesInfo == nil {
-			continue
-		}
-		rel, _ := filepath.Rel(root, pkgDir(pk))
-		rel = filepath.ToSlash(rel)
-		for _, pr := range pairs[rel] {
-			var obj types.Object
-			for _, f := range pk.Syntax {
-				for _, d := range f.Decls {
-					if fd, ok := d.(*ast.FuncDecl); ok && funcKey(rel, fd) == pr.from.key {
-						obj = pk.TypesInfo.Defs[fd.Name]
-					}
-				}
-			}
-			if obj == nil {
-				continue
-			}
-			// the confirmed name must be free
-			if pr.to.recv == "" && pk.Types.Scope().Lookup(pr.to.name) != nil {
-				continue
-			}
-			changed := map[*ast.File]bool{}
-			for _, f := range pk.Syntax {
-				in := &inliner{pk: pk}
-				if in.fileUnsupported(f) {
-					continue
-				}
-				ast.Inspect(f, func(n ast.Node) bool {
-					if id, ok := n.(*ast.Ident); ok && (pk.TypesInfo.Uses[id] == obj || pk.TypesInfo.Defs[id] == obj) {
-						id.Name = pr.to.name
-						changed[f] = true
-					}
-					return true
-				})
-			}
-			for f := range changed {
-				var buf bytes.Buffer
-				if err := format.Node(&buf, pk.Fset, f); err == nil {
-					overlay[pk.Fset.File(f.Pos()).Name()] = buf.Bytes()
-				}
-			}
-			note.Renamed = append(note.Renamed, pr.from.key+" → "+pr.to.key)
-		}
-	}
 }
 
 // ---- signatures of confirmed functions put back ----------------------------------------------
@@ -865,6 +863,16 @@ func modelLibrary(root string, env []string, overlay map[string][]byte, note *In
 		if !strings.HasSuffix(name, ".go") || strings.HasSuffix(name, "_test.go") {
 			return nil
 		}
+		if scanDirs != nil {
+			if r, _ := filepath.Rel(root, filepath.Dir(path)); !scanDirs[filepath.ToSlash(r)] {
+				return nil
+			}
+		}
+		if scanDirs != nil {
+			if r, _ := filepath.Rel(root, filepath.Dir(path)); !scanDirs[filepath.ToSlash(r)] {
+				return nil
+			}
+		}
 		var src interface{}
 		if b, ok := overlay[path]; ok {
 			src = b
@@ -1230,6 +1238,11 @@ func scanFuncsOverlay(root string, overlay map[string][]byte, f func(relDir, fil
 		}
 		if !strings.HasSuffix(name, ".go") || strings.HasSuffix(name, "_test.go") {
 			return nil
+		}
+		if scanDirs != nil {
+			if r, _ := filepath.Rel(root, filepath.Dir(path)); !scanDirs[filepath.ToSlash(r)] {
+				return nil
+			}
 		}
 		var src interface{}
 		if b, ok := overlay[path]; ok {
